@@ -102,6 +102,8 @@ type c04Obj struct {
 	sigKey   int // index of the key pair under which the signature verifies by construction; -1 none
 	obj      *Certificate
 	own      *Certificate // separately parsed copy (what a peer would send)
+	modOf    int          // >= 0: made by a "modify" step from certificate modOf (c04Mod); -1 forged
+	modSame  bool         // the modification left the serialised content unchanged
 }
 
 // c04World is one forest.
@@ -174,7 +176,7 @@ func (w *c04World) forge(s c04Cert, idx int) (*c04Obj, error) {
 		return nil, err
 	}
 	tbsLen := len(raw) - SignatureLen
-	o := &c04Obj{idx: idx, spec: s, parentFP: pfp, sigKey: -1}
+	o := &c04Obj{idx: idx, spec: s, parentFP: pfp, sigKey: -1, modOf: -1}
 	if s.Signer >= 0 {
 		signed := raw[:tbsLen]
 		o.sigKey = s.Signer
@@ -256,6 +258,172 @@ func (w *c04World) ownCopy(i int) (*Certificate, error) {
 		o.own = c
 	}
 	return o.own, nil
+}
+
+// c04Mod is one change made to the fields of a PARSED certificate object, which
+// is then put back on the wire with Marshal and parsed again ("modify" step).
+type c04Mod struct {
+	Kind int   `json:"k"`
+	Val  int64 `json:"v"`
+}
+
+const (
+	c04ModSubSecond = iota // IssuedAt and ExpiresAt moved by Val ns (0 < Val < 1s): the wire carries whole seconds, content unchanged
+	c04ModSameValue        // every field assigned the value it already has (other time zone, fresh slices): content unchanged
+	c04ModType             // Type = Val
+	c04ModIss              // IssuedAt += Val s
+	c04ModExp              // ExpiresAt += Val s
+	c04ModNameAdd          // one more name: pool[Val]
+	c04ModNameDrop         // last name removed (none: nothing changes)
+	c04ModNameSet          // first name replaced by pool[Val] (none: added)
+	c04ModKey              // public key of key pair Val
+	c04ModParent           // parent fingerprint of certificate Val (-1: zero)
+	c04NModKinds
+)
+
+var c04ModNames = [c04NModKinds]string{"sub-second", "same-value", "type", "issued-at", "expires-at", "name-added", "name-dropped", "name-replaced", "public-key", "parent"}
+
+// modified computes the ground truth of certificate src after change m - the
+// body the forger serialises for the changed specification, followed by the
+// signature src already carried (nobody re-signed) - and returns it together
+// with the function that makes the same change on a parsed Certificate object.
+// The signature is valid for the new content only if the body is byte-for-byte
+// what was signed (decided with crypto/ed25519 on the forger's bytes).
+func (w *c04World) modified(src *c04Obj, m c04Mod) (*c04Obj, func(*Certificate), error) {
+	idx := len(w.objs)
+	s := src.spec
+	s.Names = append([]int(nil), src.spec.Names...)
+	s.Stale = nil
+	poolName := func(i int) Name {
+		p := c04Pool[i]
+		return Name{Type: p.Type, Label: append(make([]byte, 0, len(p.Label)), p.Label...)}
+	}
+	inPool := func(v int64) bool { return v >= 0 && v < int64(len(c04Pool)) }
+	var apply func(c *Certificate)
+	switch m.Kind {
+	case c04ModSubSecond:
+		if m.Val <= 0 || m.Val >= 1e9 {
+			return nil, nil, errC04Spec
+		}
+		apply = func(c *Certificate) {
+			c.IssuedAt = c.IssuedAt.Add(time.Duration(m.Val))
+			c.ExpiresAt = c.ExpiresAt.Add(time.Duration(m.Val))
+		}
+	case c04ModSameValue:
+		apply = func(c *Certificate) {
+			c.Type = CertificateType(byte(c.Type))
+			c.IssuedAt = time.Unix(c.IssuedAt.Unix(), 0).UTC()
+			c.ExpiresAt = time.Unix(c.ExpiresAt.Unix(), 0).In(time.FixedZone("x", -7*3600))
+			blocks := make([]Name, 0, len(c.IDChunk.Blocks))
+			for _, b := range c.IDChunk.Blocks {
+				blocks = append(blocks, Name{Type: b.Type, Label: append(make([]byte, 0, len(b.Label)), b.Label...)})
+			}
+			c.IDChunk.Blocks = blocks
+			pk, pa := c.PublicKey, c.Parent
+			c.PublicKey, c.Parent = pk, pa
+		}
+	case c04ModType:
+		if m.Val < 0 || m.Val > 255 {
+			return nil, nil, errC04Spec
+		}
+		s.Type = int(m.Val)
+		apply = func(c *Certificate) { c.Type = CertificateType(m.Val) }
+	case c04ModIss:
+		s.Iss += m.Val
+		if s.Iss < 0 {
+			s.Iss = 0
+		}
+		iss := s.Iss
+		apply = func(c *Certificate) { c.IssuedAt = time.Unix(iss, 0) }
+	case c04ModExp:
+		s.Exp += m.Val
+		if s.Exp < 0 {
+			s.Exp = 0
+		}
+		exp := s.Exp
+		apply = func(c *Certificate) { c.ExpiresAt = time.Unix(exp, 0) }
+	case c04ModNameAdd:
+		if !inPool(m.Val) || len(s.Names) >= 6 {
+			return nil, nil, errC04Spec
+		}
+		s.Names = append(s.Names, int(m.Val))
+		apply = func(c *Certificate) { c.IDChunk.Blocks = append(c.IDChunk.Blocks, poolName(int(m.Val))) }
+	case c04ModNameDrop:
+		if n := len(s.Names); n > 0 {
+			s.Names = s.Names[:n-1]
+		}
+		apply = func(c *Certificate) {
+			if n := len(c.IDChunk.Blocks); n > 0 {
+				c.IDChunk.Blocks = c.IDChunk.Blocks[:n-1]
+			}
+		}
+	case c04ModNameSet:
+		if !inPool(m.Val) {
+			return nil, nil, errC04Spec
+		}
+		if len(s.Names) > 0 {
+			s.Names[0] = int(m.Val)
+		} else {
+			s.Names = []int{int(m.Val)}
+		}
+		apply = func(c *Certificate) {
+			if len(c.IDChunk.Blocks) > 0 {
+				c.IDChunk.Blocks[0] = poolName(int(m.Val))
+			} else {
+				c.IDChunk.Blocks = []Name{poolName(int(m.Val))}
+			}
+		}
+	case c04ModKey:
+		if m.Val < 0 || m.Val > 64 {
+			return nil, nil, errC04Spec
+		}
+		s.Key = int(m.Val)
+		apply = func(c *Certificate) { copy(c.PublicKey[:], w.pub(int(m.Val))) }
+	case c04ModParent:
+		if m.Val < -1 || m.Val >= int64(len(w.objs)) {
+			return nil, nil, errC04Spec
+		}
+		s.Parent = int(m.Val)
+		var fp [32]byte
+		if m.Val >= 0 {
+			fp = w.objs[m.Val].fp
+		}
+		apply = func(c *Certificate) { c.Parent = fp }
+	default:
+		return nil, nil, errC04Spec
+	}
+	var raw []byte
+	var pfp [32]byte
+	if s.Parent == c04ParentJunk {
+		// the junk fingerprint depends on the index: keep src's (the field is not touched by any other kind)
+		s2 := s
+		s2.Parent = c04ParentZero
+		b, _, err := w.body(&s2, idx)
+		if err != nil {
+			return nil, nil, err
+		}
+		raw, pfp = b, src.parentFP
+		copy(raw[52:84], pfp[:])
+	} else {
+		b, f, err := w.body(&s, idx)
+		if err != nil {
+			return nil, nil, err
+		}
+		raw, pfp = b, f
+	}
+	tbs := len(raw) - SignatureLen
+	srcTbs := len(src.raw) - SignatureLen
+	copy(raw[tbs:], src.raw[srcTbs:])
+	o := &c04Obj{idx: idx, spec: s, raw: raw, fp: sha3.Sum256(raw), parentFP: pfp, sigKey: -1, modOf: src.idx}
+	o.modSame = bytes.Equal(raw, src.raw)
+	switch {
+	case o.modSame:
+		o.sigKey = src.sigKey
+	case src.spec.Signer >= 0 && ed25519.Verify(ed25519.PublicKey(w.pub(src.spec.Signer)), raw[:tbs], raw[tbs:]):
+		// the change restored exactly the body that had been signed (src was signed before a field was changed)
+		o.sigKey = src.spec.Signer
+	}
+	return o, apply, nil
 }
 
 // c04MutOffsets lists the byte offsets a "bit-mutated copy" may be changed at
